@@ -5,6 +5,7 @@ CONSTANTS
   RecyclesWrappers = FALSE
   SharedDefaults = FALSE
   MaxOps = 4
+  SharedCloser = FALSE
   OnceIsNilCheck = TRUE
 INVARIANTS InvOneClient
 CHECK_DEADLOCK FALSE
